@@ -63,3 +63,20 @@ impl Case {
         })
     }
 }
+
+pub struct CaseResult {
+    pub violation: Option<crate::run::Violation>,
+    pub harness_error: Option<String>,
+    pub chain: u64,
+    /// executions performed for this case (fills x enumerated faults x forms ...)
+    pub executions: u64,
+    pub fault_points: u64,
+    /// the exact case that failed (e.g. with the enumerated fault placed), if different from the input
+    pub failing: Option<Case>,
+}
+
+impl CaseResult {
+    pub fn from_outcome(o: crate::run::Outcome) -> CaseResult {
+        CaseResult { violation: o.violation, harness_error: o.harness_error, chain: o.chain, executions: 1, fault_points: 0, failing: None }
+    }
+}
